@@ -23,9 +23,9 @@
                                NESTING DEPTH 0 WITH EXPLICIT SUBJECTS: resources whose statements are all
                                ObjectStatements — predicate-object lists with `;` and `,`, rdf:type first as
                                `a`, the multi-line tab layout — every configuration as above.
-  NOT PROVED (stated as `def`): `resources_doc_roundtrip` — full nested-resource mode: `[ ]` property
-    lists (fresh blank nodes), `( )` collections, anonymous roots `[]`, the BufferedTriplesEncoder
-    composition. See the comment there for what evidence exists instead.
+  STATED HERE as `def`, PROVED in Props/C02DocNest.lean (`resources_doc_roundtrip_holds`, round 3b):
+    `resources_doc_roundtrip` — full nested-resource mode: `[ ]` property lists (fresh blank nodes),
+    `( )` collections, anonymous roots `[]`, the BufferedTriplesEncoder composition.
 
   The theorems are about the REPAIRED code (token layer: D4–D6; `normalizedListSyntax`: D7).
   HYPOTHESES, all decidable (examples at the end): IRIs, namespaces and the base consist of IRI
@@ -142,22 +142,21 @@ theorem new_pm_agree (S : Prefix.Sorter) (ms : List Prefix.Mapping) : PMAgree (P
 
 /-! ### nested-resource mode -/
 
-/-- FULL STATEMENT for nested-resource mode (NOT PROVED; the proved fragment is
-    `resources_doc_roundtrip_partial` below): for every graph of well-formed triples, both
+/-- FULL STATEMENT for nested-resource mode (proved as `resources_doc_roundtrip_holds` in
+    Props/C02DocNest.lean, which cannot be imported here because it builds on this file; the fragment
+    proved directly on the statement machine is `resources_doc_roundtrip_partial` below): for every graph of well-formed triples, both
     iteration orders of the subject map and every configuration, the document written through the
     `BufferedTriplesEncoder` (export with the default options, `AddResource` for every exported resource
     with `[ ]` property lists and `( )` collections, `Close`) is accepted by the decoder and decodes to a
     graph isomorphic to the input.
 
-    What exists instead of a proof: (i) C17 `flatten_export_repaired` — the exported resource trees
+    Independent evidence besides the proof: (i) C17 `flatten_export_repaired` — the exported resource trees
     flatten back to a graph isomorphic to the input, for every iteration order; (ii) T3 — the model
     `TtlEnc.encodeResourceListWith` is byte-identical to the Go encoder on generated and on really exported
     trees (go/cmd/c02); (iii) the oracle Go encode → Go decode → isomorphic on those cases.
-    What a proof needs beyond `resources_doc_roundtrip_partial`: the statement machine on `[ … ]` (fresh
-    blank nodes, `bnplEnd`), `[]` subjects and `( … )` (`collOpenObj` / `collContinue`, the rdf:first/rest
-    triples the decoder generates against the cells `listSyntax` consumed), by induction on the fuel of
-    `TtlEnc.write`, with a renaming that sends the blank nodes the encoder inlined to the decoder's
-    fresh ones. -/
+    The proof goes through C08 `decode_print_partial`: the encoder's text is a printed abstract document
+    (induction on the fuel of `TtlEnc.write`), whose denotation is the flattening of a deep permutation of
+    the exported resource list. -/
 def resources_doc_roundtrip : Prop :=
   ∀ (β : Type) [DecidableEq β] (cfg : Config) (pm : Prefix.PM) (label : β → List Nat)
     (ord1 ord2 : List (Term β)) (ts : List (Triple β)),
